@@ -63,3 +63,16 @@ Example backsub_insitu_a_refuted :
   backsub_run NumQ 2 (qm [[2;1];[0;4]]%Z) (Some [4;8]) (Some (ident NumQ 2)) (zeros NumQ 2) = [4;8] /\
   backsub_run NumQ 2 (qm [[2;1];[0;4]]%Z) (Some [4;8]) None (zeros NumQ 2) = [1;2].
 Proof. vm_compute. split; reflexivity. Qed.
+
+(* ---- round 2: the entries (selected row, UNSELECTED column) are moved by the final row gather ----
+   mask [true;false;true], pivoting swaps rows 0 and 2 (p = [2;1;0]): the middle column of a, never
+   read or written by the elimination, comes back with its entries in rows 0 and 2 exchanged
+   (Props.gauss_jordan_correct: a'[r,k] = a0[p[r],k]); the unselected row 1 is untouched *)
+Example submatrix_gather_moves_unselected_columns :
+  match gj_run NumQ true false 3 [true;false;true]
+               (mkSt (qm [[1;50;2];[60;70;80];[3;90;4]]%Z) (ident NumQ 3) [1;2;3]) with
+  | Ok s' => fp (fwd NumQ 3 [true;false;true] (mkSt (qm [[1;50;2];[60;70;80];[3;90;4]]%Z) (ident NumQ 3) [1;2;3])) = [2;1;0]%nat /\
+             col NumQ (sa s') 1 = [90; 70; 50] /\ row (sa s') 1 = [60; 70; 80] /\
+             mget NumQ (sa s') 0 0 = 1 /\ mget NumQ (sa s') 0 2 = 0 /\ mget NumQ (sa s') 2 0 = 0 /\ mget NumQ (sa s') 2 2 = 1
+  | _ => False end.
+Proof. vm_compute. repeat split; reflexivity. Qed.
